@@ -34,6 +34,9 @@ def circuits():
     c = lw.Circuit(4)
     c.add(lw.Unitary(h4), 0); c.ps(0, math.pi / 2); c.bs(0, 1); c.bs(0, 1)
     out["plain4_3ph"] = (c, [1, 1, 1, 0])
+    c = lw.Circuit(4)                      # two heralds with different photon numbers, declared in DESCENDING mode order, lossy
+    c.loss(0, 0.5); c.add(lw.Unitary(h4.copy()), 0); c.loss(1, 0.5); c.herald(1, 3); c.herald(0, 1)      # (the loss on output mode 1 breaks the Hadamard symmetry between the two heralds)
+    out["herald2_desc"] = (c, [1, 1])
     return out
 
 
@@ -257,6 +260,11 @@ QUICK = [
     ("c9", "plain4_3ph", (F(1), F(0), False), "none", 0),
     ("c10", "herald1_lossy", (F(1), F(0), False), "none", 0),
     ("c11", "herald1_b", (F(1), F(0), False), "le1_on_01", 1),
+    # several heralds in non-ascending declaration order; min_detection together with a photon-carrying herald and loss, ideal detectors
+    ("c12", "herald2_desc", (F(3, 4), F(0), True), "none", 0),
+    ("c13", "herald2_desc", (F(1), F(0), True), "none", 2),
+    ("c14", "herald1_lossy", (F(1), F(0), True), "none", 2),
+    ("c15", "herald1_lossy", (F(1), F(0), False), "none", 1),
 ]
 
 
